@@ -29,6 +29,7 @@ EXPLANATION = (
     "argument); a release under a constant-false flag is no release. A2: between a non-activating get_inactive_register() and its "
     "protecting use no call that can reach an allocation. A3: the pool enumerates 2**REG_INDEX_BITS registers of bank R."
     ' C14.A4: no use of a register after its release. C14.Z: no truthiness test on an int-typed value in the memory manager and futures.'
+    ' C14.P: MemoryManager.reset() reaches every reset_* method and each restores its pool field to the state __init__ gives it. C14.K: nothing remembered across calls depends on an argument that is not part of its key.'
 )
 LEVEL_TEXT = (
     "Static analysis, full for the leak clause: every acquire site (floor 25) is proven released or transferred on all normal "
@@ -159,8 +160,91 @@ def check_use_after_release(ctx, rule: str, units=None):
     ctx.anchor(rule, "register release sites", n, 20)
 
 
+def _expr_key(e) -> str:
+    """text of an expression with the variables bound by its comprehensions renamed in order"""
+    import copy
+    e = copy.deepcopy(e)
+    ren = {}
+    for n in ast.walk(e):
+        if isinstance(n, ast.comprehension):
+            for t in ast.walk(n.target):
+                if isinstance(t, ast.Name) and t.id not in ren:
+                    ren[t.id] = f"c{len(ren)}"
+    for n in ast.walk(e):
+        if isinstance(n, ast.Name) and n.id in ren:
+            n.id = ren[n.id]
+    return A.norm(e)
+
+
+def check_pools_reset(ctx):
+    """C14.P — "with periodic flushes keeps compiling": every pool of the memory manager that a flush resets (measurement-outcome
+    registers, registers / arrays to return) is put back into the state __init__ gives it.  MemoryManager.reset() must reach
+    every reset_* method, and each of them must restore the whole field: by assigning an expression equal to the initial one, or
+    by an unconditional loop over the pool itself that stores the initial constant in every entry."""
+    repo = ctx.repo
+    mm = repo.get_class("netqasm.sdk.memmgr", "MemoryManager")
+    init, reset = mm.methods.get("__init__"), mm.methods.get("reset")
+    if init is None or reset is None:
+        raise AnalysisError("MemoryManager.__init__ / reset not found")
+    initial = {}
+    for st in A.body_nodes(init):
+        if isinstance(st, (ast.Assign, ast.AnnAssign)):
+            tg = st.targets[0] if isinstance(st, ast.Assign) else st.target
+            if A.is_self_attr(tg) and st.value is not None:
+                initial[tg.attr] = st.value
+    called = [c.func.attr for c in A.calls_in(reset) if A.is_self_attr(c.func)]
+    resetters = sorted(n for n in mm.methods if n.startswith("reset_"))
+    n = 0
+    for r in resetters:
+        fn = mm.methods[r]
+        ctx.fn(f"MemoryManager.{r}")
+        ctx.check("C14.P", f"reset:calls-{r}", r in called, f"MemoryManager.reset() no longer calls {r}(): that pool keeps growing from flush to flush", mm.loc(reset))
+        fields = set()
+        for st in A.body_nodes(fn):
+            for t in ((st.targets if isinstance(st, ast.Assign) else [st.target]) if isinstance(st, (ast.Assign, ast.AnnAssign, ast.AugAssign)) else []):
+                b = t
+                while isinstance(b, ast.Subscript):
+                    b = b.value
+                if A.is_self_attr(b) and b.attr in initial:
+                    fields.add(b.attr)
+            if isinstance(st, ast.Expr) and isinstance(st.value, ast.Call) and isinstance(st.value.func, ast.Attribute) and A.is_self_attr(st.value.func.value) and st.value.func.value.attr in initial:
+                fields.add(st.value.func.value.attr)
+        if not fields:
+            ctx.error("C14.P", f"MemoryManager.{r}: no pool field is written")
+        for f in sorted(fields):
+            n += 1
+            init_e = initial[f]
+            how = None
+            for st in fn.body:
+                if isinstance(st, ast.Expr) and isinstance(st.value, ast.Constant):
+                    continue  # docstring
+                tg = st.targets[0] if isinstance(st, ast.Assign) else st.target if isinstance(st, ast.AnnAssign) else None
+                if tg is not None and A.is_self_attr(tg, f) and st.value is not None and _expr_key(st.value) == _expr_key(init_e):
+                    how = "assigned the initial value"
+                elif isinstance(st, ast.Expr) and isinstance(st.value, ast.Call) and isinstance(st.value.func, ast.Attribute) and st.value.func.attr == "clear" and A.is_self_attr(st.value.func.value, f) \
+                        and isinstance(init_e, (ast.List, ast.Dict, ast.Set, ast.Call)) and not getattr(init_e, "elts", None) and not getattr(init_e, "keys", None) and not getattr(init_e, "args", None):
+                    how = "cleared (initially empty)"
+                elif isinstance(st, ast.For) and not st.orelse and len(st.body) == 1:
+                    it = st.iter
+                    if isinstance(it, ast.Call) and isinstance(it.func, ast.Attribute) and it.func.attr in ("keys", "items") and not it.args:
+                        it = it.func.value
+                    if isinstance(it, ast.Call) and dotted(it.func) in ("list", "tuple", "sorted") and len(it.args) == 1:
+                        it = it.args[0]
+                    key = st.target.elts[0] if isinstance(st.target, ast.Tuple) else st.target
+                    b = st.body[0]
+                    const = init_e.value if isinstance(init_e, ast.DictComp) else None
+                    if A.is_self_attr(it, f) and isinstance(key, ast.Name) and isinstance(b, ast.Assign) and isinstance(b.targets[0], ast.Subscript) and A.is_self_attr(b.targets[0].value, f) \
+                            and A.norm(b.targets[0].slice) == key.id and const is not None and A.norm(b.value) == A.norm(const):
+                        how = "every entry set to the initial constant"
+            ctx.check("C14.P", f"{r}:{f}:restored-to-its-initial-state", how is not None,
+                      f"MemoryManager.{r} does not put self.{f} back into the state __init__ gives it (`{src(init_e)[:70]}`): entries that stay marked are never handed out again, "
+                      "so the pool shrinks with every completed operation however often the connection flushes", mm.loc(fn), sample={"method": r, "field": f, "how": how})
+    ctx.anchor("C14.P", "pool fields restored by the reset_* methods of the memory manager", n, 3)
+
+
 def run(ctx):
     repo, ev = ctx.repo, ctx.ev
+    check_pools_reset(ctx)
     units, by_name = collect_units(repo)
     an = O.Analyzer(units, by_name)
     an.run()
@@ -292,11 +376,22 @@ def run(ctx):
     # 0 is an ordinary id / value / address: nothing int-valued may be tested by truthiness (nqsa/truth.py)
     from .. import truth
     truth.check(ctx, "C14.Z", ['netqasm.sdk.memmgr', 'netqasm.sdk.futures'])
+    # a value remembered for later calls is keyed by every argument it depends on (nqsa/memo.py)
+    from .. import memo
+    memo.check(ctx, "C14.K", ['netqasm.sdk.memmgr', 'netqasm.sdk.futures'])
 
 
 B = "netqasm/sdk/builder.py"
 FU = "netqasm/sdk/futures.py"
 SEEDS = [
+    dict(id="c14-meas-pool-partial-reset", file="netqasm/sdk/memmgr.py", expect="C14.P", construct="reset_used_meas_registers",
+         old="        self._used_meas_registers = {\n            operand.Register(RegisterName.M, i): False for i in range(16)\n        }\n\n    def add_register_to_return",
+         new="        for reg in self._registers_to_return:\n            if reg.name == RegisterName.M:\n                self._used_meas_registers[reg] = False\n\n    def add_register_to_return"),
+    dict(id="c14-reset-skips-meas-pool", file="netqasm/sdk/memmgr.py", expect="C14.P", construct="reset:calls-reset_used_meas_registers",
+         old="        self.reset_registers_to_return()\n        self.reset_used_meas_registers()", new="        self.reset_registers_to_return()"),
+    dict(id="c14-meas-pool-reset-to-used", file="netqasm/sdk/memmgr.py", expect="C14.P", construct="reset_used_meas_registers",
+         old="        self._used_meas_registers = {\n            operand.Register(RegisterName.M, i): False for i in range(16)\n        }\n\n    def add_register_to_return",
+         new="        self._used_meas_registers = {\n            operand.Register(RegisterName.M, i): False for i in range(8)\n        }\n\n    def add_register_to_return"),
     dict(id="c14-drop-release-wait", file=B, expect="C14.A1", construct="_add_wait_for_ent_info_cmd", old="        for reg in created_regs:\n            self._mem_mgr.remove_active_register(reg)\n", new=""),
     dict(id="c14-drop-release-bell", file=B, expect="C14.A1", construct="_get_raw_bell_state", old="        self._mem_mgr.remove_active_register(index_reg)\n        return RegFuture(self._connection, target_reg)", new="        return RegFuture(self._connection, target_reg)"),
     dict(id="c14-drop-release-binary-cond", file=B, expect="C14.A1", construct="_get_branch_commands:", old="        for reg in temp_regs_to_remove:\n            self._mem_mgr.remove_active_register(reg)\n\n        exit = BranchLabel(exit_label)\n        if_end = [exit]\n\n        return if_start, if_end\n\n    @contextmanager", new="        exit = BranchLabel(exit_label)\n        if_end = [exit]\n\n        return if_start, if_end\n\n    @contextmanager"),
@@ -316,5 +411,9 @@ SEEDS = [
     dict(id="c14-orig-loop-until-register", file=B, expect="C14.A1", construct="_loop_until_context_enter", old="            loop_register=loop_register,\n        )\n        self._mem_mgr.remove_active_register(loop_register)\n\n    def _build_cmds_breakpoint(", new="            loop_register=loop_register,\n        )\n\n    def _build_cmds_breakpoint("),
 ]
 BENIGN = [
+    dict(id="c14-benign-meas-pool-loop-reset", file="netqasm/sdk/memmgr.py",
+         old="        self._used_meas_registers = {\n            operand.Register(RegisterName.M, i): False for i in range(16)\n        }\n\n    def add_register_to_return",
+         new="        for reg in self._used_meas_registers:\n            self._used_meas_registers[reg] = False\n\n    def add_register_to_return"),
+
     dict(id="c14-benign-try-finally", file=B, old="        self._mem_mgr.remove_active_register(index_reg)\n        return RegFuture(self._connection, target_reg)", new="        result = RegFuture(self._connection, target_reg)\n        self._mem_mgr.remove_active_register(index_reg)\n        return result"),
 ]
